@@ -1,12 +1,28 @@
 """C31 -- comments, spacing, continuation lines and line directives inserted
 between the tokens of a cdef do not change its meaning.
 
-Engine E1: for every cdef of the shared corpus, every token gap (both ends of
-the existing blank/comment run) x an 8-element insertion alphabet, all single
-insertions and all pairs of insertions whose gaps are at most 1 (thorough 2)
-apart.  Oracle: the declarations (structural dump of the model types), the
-integer constants, sizeof/offsetof of every struct/union, and the text of
-emit_c_code() / emit_python_code() are those of the un-inserted cdef.
+Engine E1: for every cdef of the shared corpus (plus the C31-only cdefs of
+_c31x.EXTRA), every token gap (both ends of the existing blank/comment run) x
+the insertion alphabet, all single insertions and all pairs of insertions of
+the first alphabet whose gaps are at most 1 (thorough 2) apart.  Oracle: the
+declarations (structural dump of the model types), the integer constants,
+sizeof/offsetof of every struct/union, and the text of emit_c_code() /
+emit_python_code() are those of the un-inserted cdef.
+
+Families added after the audit round (.cache/audit/C31.md), all finite and
+enumerated completely:
+  * new insertion kinds (single insertions): comments spanning lines (also
+    inside #define lines), CR / CR LF / form feed / vertical tab, comments whose
+    contents look like code, further spellings of a line directive (no name,
+    empty name, gcc flags, tabs, '#line', at end of text without newline, inside
+    a comment, names with '/*', a backslash, the word FILE; with distinctive
+    signatures: a name made of 'typedef size_t;,(' and a number with leading zeros)
+  * the gaps INSIDE '#define' ('#' | 'define') and inside a line-directive line
+  * pairs multi-line comment x {blank, comment, continuation} inside #define lines
+  * the whole text with CR LF line endings (thorough: x every single insertion)
+  * the text given to two cdef() calls on one FFI, insertion in the second
+  * thorough: all triples at one place inside #define lines and inside the
+    pseudo-tokens of cffi ('[...]', '= ...', 'int...', extern "Python", ...)
 """
 import collections
 import io
@@ -14,23 +30,40 @@ import sys
 
 from .. import build, pool
 from ..build import InfraError
-from ._corpus import CORPUS, tokenize
+from ._corpus import CORPUS as _SHARED, tokenize
+from . import _c31x as X
+
+# the shared corpus (also enumerated by C30) followed by the cdefs of this check only
+CORPUS = list(_SHARED) + list(X.EXTRA)
 
 ID = "C31"
 LEVEL = "exploration"
 META = dict(
     engine="E1-enum", level="exploration",
     technique="exhaustive insertion of every whitespace/comment/continuation/line-directive form at every token gap "
-              "(singles and pairs of neighbouring gaps) of a 47-cdef corpus, differential against the un-inserted cdef",
+              "(singles, pairs of neighbouring gaps, thorough: triples at one place) of a 55-cdef corpus, also with CR LF "
+              "line endings and split over two cdef() calls, differential against the un-inserted cdef",
     text="At every gap between two tokens of each corpus cdef (tokenizer independent of pycparser; '...', string "
          "literals and '#define' kept whole; line directives are one token) each of ' ', tab, newline, '/**/', "
          "'/* ; { */', '// x<nl>', '<nl># 7 \"f//g...h\"<nl>' (a file name the comment and '...' regexes would mangle if it were not protected) and, inside #define lines, backslash-newline is inserted: all "
-         "single insertions and all ordered pairs at gap distance <=1 (thorough <=2).  The resulting declarations, "
-         "integer constants, struct layouts and the bytes written by emit_c_code()/emit_python_code() must equal those "
-         "of the original text.",
+         "single insertions and all ordered pairs at gap distance <=1 (thorough <=2).  As single insertions also: "
+         "comments spanning lines ('/* x<nl> y */', with a backslash-newline inside, '// x \\<nl> y<nl>'; the block forms "
+         "also inside #define lines, and in pairs with blank/comment/continuation there), CR, CR LF, form feed, vertical "
+         "tab (not inside directives), comments containing quotes, '...', '//', '/*' and a #define or a line directive, "
+         "and 10 more spellings of a line directive (number only, '#line N', empty name, flags, tabs and blanks, at the "
+         "end of the text without newline, names containing '/*', a backslash, the word FILE, the words 'typedef "
+         "size_t;,(' and a number with leading zeros).  Blanks, tabs, comments (and a continuation) are also inserted "
+         "between '#' and 'define' and between the parts of every line-directive line of the corpus.  Every cdef is "
+         "also run with CR LF line endings (thorough: combined with every single insertion) and split over two cdef() "
+         "calls of one FFI with the insertions in the second; thorough adds all triples of {blank, newline, comment, "
+         "line comment, continuation, multi-line comment, line directive} at one place inside #define lines and next "
+         "to cffi's pseudo-tokens.  The resulting declarations, integer constants, struct layouts and the bytes "
+         "written by emit_c_code()/emit_python_code() must equal those of the original text.",
     note="newline-bearing insertions are not placed strictly inside a '#' line (that would end the directive in C as "
-         "well); backslash-newline is only placed inside #define lines, at token gaps; the reference is cffi itself on "
-         "the un-inserted text")
+         "well); form feed, vertical tab and a lone CR are not placed inside a directive (C allows only blank and tab "
+         "there); a lone CR is treated as white space, not as a line end; backslash-newline is only placed inside "
+         "#define lines, at token gaps; the reference is cffi itself on the un-inserted text; measured on the loaded "
+         "16-core machine: quick (189 k cases) 35-55 s, thorough (669 k cases) 200 s")
 
 INS = collections.OrderedDict([
     ("sp", " "), ("tab", "\t"), ("nl", "\n"), ("cmt", "/**/"), ("cmt2", "/* ; { */"),
@@ -38,10 +71,28 @@ INS = collections.OrderedDict([
     # the other spellings of a line directive: several digits + gcc's trailing flags, and '#line'
     ("linedir2", '\n# 12 "d//e...f" 1 3\n'), ("linedir3", '\n#line 35 "x//y...z"\n'),
 ])
+FIRST_KINDS = tuple(INS)                   # the first alphabet (all of it is paired)
 NEWLINE_BEARING = ("nl", "lcmt", "linedir", "linedir2", "linedir3")
 INS_CLASS = {"sp": "space", "tab": "space", "nl": "newline", "cmt": "comment", "cmt2": "comment",
              "lcmt": "line_comment", "linedir": "linedir", "linedir2": "linedir", "linedir3": "linedir", "cont": "cont"}
+PLACE = {}
+for _k, (_txt, _cls, _rule) in X.NEW_INS.items():
+    INS[_k] = _txt
+    INS_CLASS[_k] = _cls
+    PLACE[_k] = _rule
+NEWLINE_BEARING_ALL = NEWLINE_BEARING + tuple(k for k, r in PLACE.items() if r in ("nl", "eof"))
 INT_WORDS = ("int", "long", "short", "signed", "unsigned", "char")
+
+# kinds inserted in the gaps inside the compound tokens
+INNER_KINDS = {"define": ("sp", "tab", "cmt", "cmt2", "mlcmt", "cont"),
+               "line": ("sp", "tab", "cmt")}
+# pairs inside #define lines in which one member is a comment spanning lines
+ML_KINDS = ("mlcmt", "cmtcont")
+ML_PARTNERS = ML_KINDS + ("sp", "cmt", "cont")
+# triples at one place (thorough)
+TRIPLE_KINDS = ("sp", "nl", "cmt", "lcmt", "cont", "mlcmt", "linedir")
+# the second cdef() of a split text: quick kinds
+SPLIT_QUICK = ("sp", "cmt2", "lcmt", "linedir", "cont", "mlcmt")
 
 
 # ---------------------------------------------------------------------------
@@ -58,19 +109,44 @@ class Entry(object):
             b = self.toks[g].start if g < n else len(text)
             for p in sorted({a, b}):
                 self.positions.append((g, p))
+        # gaps inside '#define' and inside line-directive lines: gap ids -1, -2, ...
+        self.inner = {}                    # gid -> (offset, prev class, next class, 'define'|'line')
+        for t in self.toks:
+            if t.kind in ("pp_define", "pp_line"):
+                ppk = self.pplines[t.pp][2]
+                if ppk not in ("define", "line"):
+                    continue
+                for p, pc, nc in X.pp_inner(t):
+                    self.inner[-(len(self.inner) + 1)] = (p, pc, nc, ppk)
+        self.cuts = X.find_cuts(text, self.toks, self.pplines)
 
-    def kinds_at(self, p):
+    def in_define(self, p):
+        return any(h < p <= e and k == "define" for h, e, k in self.pplines)
+
+    def kinds_at(self, p, enabled=()):
         inside = any(h < p < e for h, e, k in self.pplines)
-        indef = any(h < p <= e and k == "define" for h, e, k in self.pplines)
+        inpp = any(h < p <= e for h, e, k in self.pplines)
         ks = ["sp", "tab", "cmt", "cmt2"]
         if not inside:
             ks += list(NEWLINE_BEARING)
-        if indef:
+        if self.in_define(p):
             ks.append("cont")
+        for k in enabled:
+            rule = PLACE[k]
+            if (rule == "any" or (rule == "nl" and not inside) or (rule == "outside" and not inpp)
+                    or (rule == "eof" and p == len(self.text))):
+                ks.append(k)
         return ks
 
-    def singles(self):
-        return [(g, p, k) for g, p in self.positions for k in self.kinds_at(p)]
+    def singles(self, enabled=()):
+        return [(g, p, k) for g, p in self.positions for k in self.kinds_at(p, enabled)]
+
+    def inner_singles(self):
+        out = []
+        for gid in sorted(self.inner, reverse=True):
+            p, pc, nc, ppk = self.inner[gid]
+            out.extend((gid, p, k) for k in INNER_KINDS[ppk])
+        return out
 
     def neighbours(self, g):
         prev = self.toks[g - 1] if g > 0 else None
@@ -94,7 +170,7 @@ def pair_allowed(e, s1, s2):
     the first changes the legality of the second: at the same offset, a backslash-newline
     after a newline-bearing insertion is no longer inside the #define line."""
     (g1, p1, k1), (g2, p2, k2) = s1, s2
-    if p1 == p2 and k2 == "cont" and k1 in NEWLINE_BEARING:
+    if p1 == p2 and k2 == "cont" and k1 in NEWLINE_BEARING_ALL:
         return False
     return True
 
@@ -112,6 +188,8 @@ def _tokclass(t):
 
 def adjacency(e, g):
     """Name of the cffi pseudo-token the gap lies in, or 'other'."""
+    if g < 0:
+        return "other"
     prev, nxt = e.neighbours(g)
     pt = prev.text if prev is not None else None
     nt = nxt.text if nxt is not None else None
@@ -140,22 +218,48 @@ def adjacency(e, g):
     return "other"
 
 
-def make_sig(e, what, exc, ins):
-    """ins = [(g, p, k)]: one or two insertions."""
+def _sig_inpp(cls, ppkind, inner):
+    """The known finding K31c ('a comment on the line of a line directive') matches every
+    signature with in_pp == 'line'.  White space of the added kinds at the two ends of such a
+    line, and anything but a comment in the gaps inside it, is another matter: it gets its
+    own value."""
+    if ppkind == "line" and cls not in X.COMMENT_CLASSES and (inner or cls not in X.FIRST_CLASSES):
+        return "line_inner" if inner else "line_edge"
+    return ppkind
+
+
+def make_sig(e, what, exc, ins, mode="plain"):
+    """ins = [(g, p, k)]: one, two or three insertions."""
     if len(ins) == 1:
         g, p, k = ins[0]
-        adj = adjacency(e, g)
-        sig = {"kind": what, "ins": INS_CLASS[k], "adjacent": adj}
-        if adj == "other":
-            prev, nxt = e.neighbours(g)
-            sig["prev"], sig["next"] = _tokclass(prev), _tokclass(nxt)
-            sig["in_pp"] = _ppkind(e, p)
+        cls = INS_CLASS[k]
+        if cls in X.COLLAPSED:
+            sig = {"kind": what, "ins": cls}
+        else:
+            adj = adjacency(e, g)
+            sig = {"kind": what, "ins": cls, "adjacent": adj}
+            if g < 0:
+                _, pc, nc, ppk = e.inner[g]
+                sig["prev"], sig["next"] = pc, nc
+                sig["in_pp"] = _sig_inpp(cls, ppk, True)
+            elif adj == "other":
+                prev, nxt = e.neighbours(g)
+                sig["prev"], sig["next"] = _tokclass(prev), _tokclass(nxt)
+                sig["in_pp"] = _sig_inpp(cls, _ppkind(e, p), False)
     else:
-        sig = {"kind": what, "arity": 2, "ins": [INS_CLASS[i[2]] for i in ins],
+        sig = {"kind": what, "arity": len(ins), "ins": [INS_CLASS[i[2]] for i in ins],
                "adjacent": [adjacency(e, i[0]) for i in ins],
                "interaction": True}
+    if any(INS_CLASS[i[2]] == "comment_multiline" for i in ins):
+        # input class: where the comments spanning lines lie with respect to #define directives
+        # ('+'-joined parts of _c31x.ml_comment_classes)
+        mlc = X.ml_comment_classes(e.apply([(p, k) for g, p, k in ins]))
+        if mlc:
+            sig["mlc"] = "+".join(mlc)
     if exc:
         sig["exc"] = exc
+    if mode != "plain":
+        sig["mode"] = mode
     return sig
 
 
@@ -192,15 +296,17 @@ class _Null(object):
 
 
 def snapshot(text):
-    """Everything the statement talks about, for one cdef text.  A failing step is recorded
-    as ('exc', type name)."""
+    """Everything the statement talks about, for one cdef text (or a list of texts given to
+    successive cdef() calls of one FFI).  A failing step is recorded as ('exc', type name)."""
     import warnings
     warnings.simplefilter("ignore")
     from cffi import FFI, model
+    parts = [text] if isinstance(text, str) else list(text)
     snap = {}
     f = FFI()
     try:
-        f.cdef(text)
+        for part in parts:
+            f.cdef(part)
     except Exception as e:
         return {"cdef": ("exc", type(e).__name__, str(e)[:300])}
     snap["cdef"] = ("ok",)
@@ -218,7 +324,8 @@ def snapshot(text):
         except Exception as e:
             snap["emit_c"] = ("exc", type(e).__name__)
         g = FFI()
-        g.cdef(text)
+        for part in parts:
+            g.cdef(part)
         g.set_source("c31_mod", None)
         buf = io.StringIO()
         try:
@@ -271,6 +378,7 @@ def _first_diff(a, b):
 
 _entries = {}
 _bases = {}
+_split_bases = {}
 
 
 def entry(i):
@@ -285,77 +393,179 @@ def base_of(i):
     return _bases[i]
 
 
+def split_of(i):
+    """(cut, reference observation) of the first line boundary at which the text works as two
+    cdef() calls; (None, None) if there is none."""
+    if i not in _split_bases:
+        e = entry(i)
+        res = (None, None)
+        for cut in e.cuts:
+            b = snapshot([e.text[:cut], e.text[cut:]])
+            if b["cdef"][0] == "ok":
+                res = (cut, b)
+                break
+        _split_bases[i] = res
+    return _split_bases[i]
+
+
+def mutate(e, mode, case):
+    """The text (or the two texts) handed to cdef() for one case."""
+    text = e.apply([(p, k) for g, p, k in case])
+    if mode == "crlf":
+        # CR LF line endings everywhere (the text's own and those of the insertions)
+        return text.replace("\r\n", "\n").replace("\n", "\r\n")
+    if mode == "split":
+        cut = split_of(e.idx)[0]
+        return [text[:cut], text[cut:]]        # every insertion offset is >= cut
+    return text
+
+
+def reference(e, mode):
+    if mode == "split":
+        return split_of(e.idx)[1]
+    return base_of(e.idx)                      # CR LF: the text with LF endings is the reference
+
+
 def work(item):
-    """item = (entry index, [case, ...]); case = ((g,p,k),) or ((g,p,k),(g,p,k))."""
-    ei, cases = item
+    """item = (entry index, mode, [case, ...]); case = () or a tuple of 1..3 (g,p,k)."""
+    ei, mode, cases = item
     e = entry(ei)
-    base = base_of(ei)
+    base = reference(e, mode)
     bad = []
     hist = collections.Counter()
     single_cache = {}
 
     def run(ins):
-        return compare(base, snapshot(e.apply([(p, k) for g, p, k in ins])))
+        return compare(base, snapshot(mutate(e, mode, ins)))
 
     for case in cases:
         d = run(case)
         hist["n%d" % len(case)] += 1
+        if mode != "plain":
+            hist["mode:" + mode] += 1
         for g, p, k in case:
             hist["ins:" + k] += 1
             hist["adj:" + adjacency(e, g)] += 1
+            if g < 0:
+                hist["inner:" + e.inner[g][3]] += 1
         if d is None:
             continue
         key, exc, info = d
-        if len(case) == 2:
-            # is the pair explained by one of its members alone?
+        if len(case) == 0:
+            sig = {"kind": WHAT[key], "ins": "whole_text", "mode": mode}
+            if exc:
+                sig["exc"] = exc
+        elif len(case) >= 2:
+            # is the pair/triple explained by one of its members alone?
             expl = None
             for s in case:
                 if s not in single_cache:
                     single_cache[s] = run((s,))
                 if single_cache[s] is not None and expl is None:
                     k1, exc1, _ = single_cache[s]
-                    expl = make_sig(e, WHAT[k1], exc1, [s])
+                    expl = make_sig(e, WHAT[k1], exc1, [s], mode)
             if expl is not None:
                 sig = dict(expl)
-                sig["arity"] = 2
+                sig["arity"] = len(case)
             else:
-                sig = make_sig(e, WHAT[key], exc, list(case))
+                sig = make_sig(e, WHAT[key], exc, list(case), mode)
         else:
-            sig = make_sig(e, WHAT[key], exc, list(case))
-        bad.append((ei, case, sig, info))
+            sig = make_sig(e, WHAT[key], exc, list(case), mode)
+            g, p, k = case[0]
+            if INS_CLASS[k] in X.COLLAPSED:
+                # control: the plain line directive at the same place.  If that fails too, the
+                # cause is the place (K31a), not the spelling of this directive.
+                ctl = (g, p, "linedir")
+                dc = run((ctl,))
+                if dc is not None:
+                    sig = make_sig(e, WHAT[dc[0]], dc[1], [ctl], mode)
+                    sig["via"] = INS_CLASS[k]
+        bad.append((ei, mode, case, sig, info))
     return len(cases), hist, bad
 
 
 # ---------------------------------------------------------------------------
 
-def build_cases(maxdist, pair_kinds=None):
+def build_cases(quick, maxdist, pair_kinds, new_kinds):
+    """-> (work items, counters of the families)."""
     items = []
-    nsingle = npair = 0
+    fam = collections.Counter()
+
+    def emit(i, mode, cases):
+        for c in range(0, len(cases), 400):        # chunks of ~400 cases
+            items.append((i, mode, cases[c:c + 400]))
+
+    def ordered(s1, s2):
+        # second not before the first; at one offset both belong to the same gap
+        if s2[1] < s1[1]:
+            return False
+        if s2[1] == s1[1] and s2[0] != s1[0]:
+            return False
+        return 0 <= s2[0] - s1[0] <= maxdist
+
     for i in range(len(CORPUS)):
         if _bases[i]["cdef"][0] != "ok":
             continue
         e = entry(i)
-        sing = e.singles()
-        cases = [(s,) for s in sing]
-        nsingle += len(sing)
-        for a in range(len(sing)):
-            s1 = sing[a]
-            for b in range(len(sing)):
-                s2 = sing[b]
-                if s2[1] < s1[1]:
-                    continue
-                if s2[1] == s1[1] and s2[0] != s1[0]:
-                    continue
-                d = s2[0] - s1[0]
-                if pair_kinds is not None and (s1[2] not in pair_kinds or s2[2] not in pair_kinds):
-                    continue
-                if 0 <= d <= maxdist and pair_allowed(e, s1, s2):
+        sing = e.singles(new_kinds)
+        inner = e.inner_singles()
+        cases = [(s,) for s in sing] + [(s,) for s in inner]
+        fam["single_first_alphabet"] += sum(1 for s in sing if s[2] in FIRST_KINDS)
+        fam["single_new_kinds"] += sum(1 for s in sing if s[2] not in FIRST_KINDS)
+        fam["single_inside_pp_token"] += len(inner)
+        # --- pairs of the first alphabet
+        # (quick: on the C31-only cdefs the second block comment '/* ; { */' is inserted alone only)
+        first = [s for s in sing if s[2] in pair_kinds and not (quick and i >= len(_SHARED) and s[2] == "cmt2")]
+        for s1 in first:
+            for s2 in first:
+                if ordered(s1, s2) and pair_allowed(e, s1, s2):
                     cases.append((s1, s2))
-                    npair += 1
-        # chunks of ~400 cases
-        for c in range(0, len(cases), 400):
-            items.append((i, cases[c:c + 400]))
-    return items, nsingle, npair
+                    fam["pair_first_alphabet"] += 1
+        # --- pairs with a comment spanning lines, inside #define lines
+        mlp = [s for s in sing if s[2] in ML_PARTNERS and e.in_define(s[1])]
+        for s1 in mlp:
+            for s2 in mlp:
+                if (s1[2] in ML_KINDS or s2[2] in ML_KINDS) and ordered(s1, s2) and pair_allowed(e, s1, s2):
+                    cases.append((s1, s2))
+                    fam["pair_multiline_comment_in_define"] += 1
+        # --- triples at one place (thorough)
+        if not quick:
+            for g, p in e.positions:
+                if not (e.in_define(p) or adjacency(e, g) != "other"):
+                    continue
+                ks = [k for k in e.kinds_at(p, new_kinds) if k in TRIPLE_KINDS]
+                for k1 in ks:
+                    for k2 in ks:
+                        for k3 in ks:
+                            t = ((g, p, k1), (g, p, k2), (g, p, k3))
+                            if pair_allowed(e, t[0], t[1]) and pair_allowed(e, t[1], t[2]) \
+                                    and pair_allowed(e, t[0], t[2]):
+                                cases.append(t)
+                                fam["triple_one_place"] += 1
+        emit(i, "plain", cases)
+        # --- CR LF line endings: the whole text; thorough: x every single insertion whose text
+        #     has no CR of its own
+        ccases = [()]
+        if not quick:
+            ccases += [(s,) for s in sing + inner if "\r" not in INS[s[2]]]
+        fam["crlf_text"] += len(ccases)
+        emit(i, "crlf", ccases)
+        # --- two cdef() calls, insertions in the second
+        cut = split_of(i)[0]
+        if cut is not None:
+            kinds = SPLIT_QUICK if quick else tuple(INS)
+            scases = [(s,) for s in sing + inner if s[1] >= cut and s[2] in kinds]
+            fam["split_entries"] += 1
+            fam["split_cdef"] += len(scases)
+            emit(i, "split", scases)
+    return items, fam
+
+
+def tier_kinds(quick):
+    # quick tier: the tab (same class as the blank in every regex of cparser) is inserted alone only
+    pair_kinds = [k for k in FIRST_KINDS if k not in ("tab", "linedir2", "linedir3")] if quick else list(FIRST_KINDS)
+    new_kinds = [k for k in X.NEW_INS if k in X.QUICK_NEW] if quick else list(X.NEW_INS)
+    return pair_kinds, new_kinds
 
 
 def run(ctx):
@@ -370,11 +580,17 @@ def run(ctx):
             rejected.append(i)
             ctx.violation({"kind": "corpus_rejected", "entry": CORPUS[i][0], "exc": b["cdef"][1]},
                           {"entry": i, "name": CORPUS[i][0], "case": [], "text": CORPUS[i][1], "observed": b["cdef"][2]})
-    # quick tier: the tab (same class as the blank in every regex of cparser) is inserted alone only
-    pair_kinds = [k for k in INS if k not in ("tab", "linedir2", "linedir3")] if ctx.quick else list(INS)
-    items, nsingle, npair = build_cases(maxdist, pair_kinds)
-    ctx.log("%d corpus cdefs, %d tokens, %d single insertions, %d pairs (gap distance <= %d)" % (
-        len(CORPUS), sum(len(entry(i).toks) for i in range(len(CORPUS))), nsingle, npair, maxdist))
+        else:
+            split_of(i)
+    pair_kinds, new_kinds = tier_kinds(ctx.quick)
+    items, fam = build_cases(ctx.quick, maxdist, pair_kinds, new_kinds)
+    nsingle = fam["single_first_alphabet"] + fam["single_new_kinds"] + fam["single_inside_pp_token"]
+    npair = fam["pair_first_alphabet"] + fam["pair_multiline_comment_in_define"]
+    ctx.log("%d corpus cdefs, %d tokens, %d single insertions, %d pairs (gap distance <= %d); families: %s" % (
+        len(CORPUS), sum(len(entry(i).toks) for i in range(len(CORPUS))), nsingle, npair, maxdist,
+        ", ".join("%s=%d" % kv for kv in sorted(fam.items()))))
+    for k, v in fam.items():
+        ctx.count("family:" + k, v)
     total = 0
     allbad = []
     nblk = 64
@@ -388,13 +604,25 @@ def run(ctx):
         for k, v in hist.items():
             ctx.count(k, v)
         allbad.extend(bad)
-    # canonical order: singles before pairs, then by entry and offsets
-    allbad.sort(key=lambda b: (len(b[1]), b[0], [(s[1], s[2]) for s in b[1]]))
+    # canonical order: singles before pairs, then by mode, entry and offsets
+    allbad.sort(key=lambda b: (len(b[2]), b[1], b[0], [(s[1], s[2]) for s in b[2]]))
     import json
+
+    def shown(ei, mode, case):
+        t = mutate(entry(ei), mode, case)
+        return t if isinstance(t, str) else "\n<second cdef()>\n".join(t)
+
+    def detail_of(ei, mode, case, info, text=None):
+        d = {"entry": ei, "name": entry(ei).name, "case": case, "mode": mode,
+             "text": shown(ei, mode, case) if text is None else text, "observed": info}
+        if mode == "split":
+            d["cut"] = split_of(ei)[0]
+        return d
+
     roots = {}
-    for ei, case, sig, info in allbad:
+    for ei, mode, case, sig, info in allbad:
         e = entry(ei)
-        mutated = e.apply([(p, k) for g, p, k in case])
+        mutated = shown(ei, mode, case)
         key = json.dumps(sig, sort_keys=True)
         r = roots.setdefault(key, {"sig": sig, "count": 0, "entry": e.name, "example": mutated, "observed": info})
         r["count"] += 1
@@ -404,34 +632,38 @@ def run(ctx):
     done = set()
     for key in sorted(roots):
         r = roots[key]
-        for ei, case, sig, info in allbad:
-            if json.dumps(sig, sort_keys=True) == key and entry(ei).apply([(p, k) for g, p, k in case]) == r["example"]:
-                ctx.violation(sig, {"entry": ei, "name": entry(ei).name, "case": case, "text": r["example"],
-                                    "observed": info})
-                done.add((ei, case))
+        for ei, mode, case, sig, info in allbad:
+            if json.dumps(sig, sort_keys=True) == key and shown(ei, mode, case) == r["example"]:
+                ctx.violation(sig, detail_of(ei, mode, case, info, r["example"]))
+                done.add((ei, mode, case))
                 break
-    for ei, case, sig, info in allbad:
-        if (ei, case) in done:
+    for ei, mode, case, sig, info in allbad:
+        if (ei, mode, case) in done:
             continue
-        ctx.violation(sig, {"entry": ei, "name": entry(ei).name, "case": case,
-                            "text": entry(ei).apply([(p, k) for g, p, k in case]), "observed": info})
-    for i in (3, 12, 21, 27):
+        ctx.violation(sig, detail_of(ei, mode, case, info))
+    for i in (3, 12, 21, 27, len(_SHARED) + 5):
         e = entry(i)
-        s = e.singles()
+        s = e.singles(new_kinds)
         ctx.sample({"entry": e.name, "inserted": e.apply([(s[len(s) // 2][1], s[len(s) // 2][2])])})
     cov = {
         "evaluations": total,
         "distinct_nontrivial": total,
-        "rule": "every case is a distinct (cdef, insertion positions, insertion kinds) triple whose insertion is legal C "
-                "at that place; all of them go through the full comparison (declarations, constants, layouts, both "
-                "emitters), none is trivial by construction: the count is the number of cases whose mutated text "
-                "differs from the original (measured: all)",
+        "rule": "every case is a distinct (cdef, mode, insertion positions, insertion kinds) tuple whose insertion is "
+                "legal C at that place; all of them go through the full comparison (declarations, constants, layouts, "
+                "both emitters), none is trivial by construction: the count is the number of cases whose mutated text "
+                "differs from the original (measured: all).  Families (counts in class_histogram 'family:*'): single "
+                "insertions of the first alphabet, of the added kinds (multi-line comments, CR/CRLF/FF/VT, comment "
+                "contents, line-directive spellings) and in the gaps inside '#define' / line-directive lines; pairs of "
+                "the first alphabet and pairs with a multi-line comment inside #define lines; the text with CR LF "
+                "line endings; the text split over two cdef() calls; thorough: triples at one place",
         "exhaustive": True,
         "corpus_cdefs": len(CORPUS),
+        "corpus_cdefs_shared_with_C30": len(_SHARED),
         "corpus_tokens": sum(len(entry(i).toks) for i in range(len(CORPUS))),
-        "insertion_alphabet": list(INS),
+        "insertion_alphabet": [k for k in INS if k in FIRST_KINDS or k in new_kinds],
         "single_insertions": nsingle,
         "pair_insertions": npair,
+        "families": dict(sorted(fam.items())),
         "max_gap_distance_of_pairs": maxdist,
         "pair_insertion_alphabet": pair_kinds,
         "root_causes": [dict(sig=r["sig"], count=r["count"], entry=r["entry"], example=r["example"],
@@ -439,23 +671,31 @@ def run(ctx):
     }
     return ctx.finish(cov, ["the reference is cffi's own result on the un-inserted text (differential in the insertion "
                             "only); gcc is not consulted",
-                            "insertions are made at token boundaries found by an independent tokenizer; positions "
-                            "inside tokens, inside string literals and inside line-directive lines are not explored"])
+                            "insertions are made at token boundaries found by an independent tokenizer (and, inside "
+                            "'#define' and line-directive lines, by a regex of this check); positions inside other "
+                            "tokens and inside string literals are not explored",
+                            "a lone CR is white space (as in cffi after b1295bb), not a line end; form feed, vertical "
+                            "tab and CR are not inserted inside directives"])
 
 
 def replay(detail):
     ei = detail["entry"]
     e = entry(ei)
-    case = [tuple(s) for s in detail["case"]]
-    text = e.apply([(p, k) for g, p, k in case])
-    print("corpus entry %s, insertions %r" % (e.name, [(p, k) for g, p, k in case]))
+    mode = detail.get("mode", "plain")
+    case = tuple(tuple(s) for s in detail["case"])
+    print("corpus entry %s, mode %s, insertions %r" % (e.name, mode, [(p, k) for g, p, k in case]))
     print("original: %r" % e.text)
-    print("mutated:  %r" % text)
-    if not case:
-        b = snapshot(text)
+    if not case and mode == "plain":
+        b = snapshot(e.text)
         print("cdef of the corpus entry itself: %r" % (b["cdef"],))
         return 1 if b["cdef"][0] != "ok" else 0
-    d = compare(base_of(ei), snapshot(text))
+    if mode == "split":
+        if split_of(ei)[0] != detail.get("cut"):
+            print("the text is no longer cut at offset %r (now %r)" % (detail.get("cut"), split_of(ei)[0]))
+            return 1
+    text = mutate(e, mode, case)
+    print("mutated:  %r" % (text,))
+    d = compare(reference(e, mode), snapshot(text))
     if d is None:
         print("no difference")
         return 0
